@@ -8,6 +8,11 @@ INJECT = {
     'statime/src/lib.rs': [('verif_gen', 'gen.rs')],
     'statime/src/datastructures/messages/header.rs': [('verif_kani', 'header.rs')],
     'statime/src/datastructures/messages/mod.rs': [('verif_kani_msg', 'messages.rs')],
+    'statime/src/port/mod.rs': [('verif_kani', 'port.rs')],
+    'statime/src/port/sequence_id.rs': [('verif_seq', 'seq.rs')],
+    'statime/src/time/duration.rs': [('verif_bits', 'time_dur.rs')],
+    'statime/src/time/instant.rs': [('verif_bits', 'time_inst.rs')],
+    'statime/src/time/mod.rs': [('verif_time', 'time_mod.rs')],
 }
 
 
@@ -16,6 +21,8 @@ def module_file_for(modpath):
     table = {
         'datastructures::messages::header::verif_kani': ('statime/src/datastructures/messages/header.rs', 'header.rs'),
         'datastructures::messages::verif_kani_msg': ('statime/src/datastructures/messages/mod.rs', 'messages.rs'),
+        'port::verif_kani::slave_h': ('statime/src/port/mod.rs', 'port.rs'),
+        'port::sequence_id::verif_seq': ('statime/src/port/sequence_id.rs', 'seq.rs'),
     }
     return table[modpath]
 
